@@ -33,6 +33,10 @@ BIG = dict(kinds=["body", "div", "div", "p", "p", "span", "span", "span", "br", 
                   "rbc", "rtc", "rt", "region", "region", "region"],
            regid=[0] * 19 + [1, 1, 2], nd=2, nids=2)
 
+# many interchangeable children: parents with a dozen and more children, long sibling chains
+WIDE = dict(kinds=["body", "div", "p", "p"] + ["span"] * 22 + ["text"] * 8 + ["br"] * 4 + ["region", "region"],
+            regid=[0] * 38 + [1, 2], nd=1, nids=2)
+
 CFG_MODEL = """CONSTANTS
   {consts}
 SPECIFICATION Spec
@@ -216,7 +220,7 @@ def plausible_op(uni, w, S, rng, catalogue):
         return mkop("PushChild", p, rng.choice(cands))
     return mkop("PushChild", rng.choice(E), rng.choice(E))
   if r < 0.36:
-    p = rng.choice([e for e in E if kinds[e - 1] in ("ruby", "rtc")] if smart else E)
+    p = rng.choice(([e for e in E if kinds[e - 1] in ("ruby", "rtc")] or E) if smart else E)
     if kinds[p - 1] == "ruby" and smart:
       pat = rng.choice(RUBY_PATTERNS)
       cs = []
@@ -393,6 +397,12 @@ def run(ctx):
       if not st["same"]:
         ctx.nontrivial(("hist", dumps(st["op"]), dumps(st["post"]["kids"])))
   validate(ctx, uni, recs, meta, catalogue, "histories")
+  wuni = Universe(WIDE["kinds"], WIDE["regid"], WIDE["nd"], WIDE["nids"])
+  wrecs, wmeta = run_histories(wuni, catalogue, ctx.rng, 600 if thorough else 50, 60)
+  ctx.evaluations += sum(len(r["steps"]) for r in wrecs)
+  ctx.traces += len(wrecs)
+  ctx.count("widest_parent_in_wide_histories", max((len(k) for r in wrecs for st in r["steps"] if st.get("post") for k in st["post"]["kids"]), default=0))
+  validate(ctx, wuni, wrecs, wmeta, catalogue, "wide_histories")
   ctx.sample({"config": "histories", "first_ops": [s["op"] for s in recs[0]["steps"][:6]], "accepted": [s["ok"] for s in recs[0]["steps"][:6]]})
   ctx.exhaustive = thorough
   ctx.assume("states of the exhaustive models are rebuilt on real objects with the base-class ContentElement.push_child")
